@@ -2,7 +2,7 @@
    Print Assumptions.  Costs are integers (dyadic floats scaled by 2^30; 2^-26 is 16). *)
 From Coq Require Import ZArith List Bool.
 From Centro Require Import Base.Sx Model.Lapjv Spec.Lapjv Proofs.LapjvCert Proofs.LapjvRefute Proofs.LapjvTrack
-  Proofs.LapjvPhases Proofs.LapjvAbstract Proofs.LapjvGrid Proofs.LapjvArr Proofs.LapjvRows Proofs.LapjvTrackCost Proofs.LapjvRt Proofs.LapjvHall Proofs.LapjvBsearch Proofs.LapjvTrackLink Proofs.LapjvArrExt Proofs.LapjvExtModel Proofs.LapjvAugMarks Proofs.LapjvAugFlip.
+  Proofs.LapjvPhases Proofs.LapjvAbstract Proofs.LapjvGrid Proofs.LapjvArr Proofs.LapjvRows Proofs.LapjvTrackCost Proofs.LapjvRt Proofs.LapjvHall Proofs.LapjvBsearch Proofs.LapjvTrackLink Proofs.LapjvArrExt Proofs.LapjvExtModel Proofs.LapjvAugMarks Proofs.LapjvAugFlip Proofs.LapjvAugPred Proofs.LapjvAugRows.
 Import ListNotations.
 Open Scope Z_scope.
 
@@ -311,15 +311,67 @@ Print Assumptions C01_aug_marks_inv.
 (* aug_flip_chain: given that the predecessor links from the exit column form a chain of distinct rows < n ending in the
    free row r (chain_ok), the path-flipping loop terminates within |chain| iterations, uses only indices < n, keeps the
    lengths of x and y, leaves the x of rows outside the chain alone and assigns the first row of the chain to the exit
-   column.  _partial: that aug_loop's pred array always yields such a chain (pred[j] = r or a row y[j'] with j' earlier in
-   `ready`), and aug_scan_nonempty (a rebuild of scan under has_PM finds a column: an augmenting path exists) are NOT
-   proved; with them and the Dijkstra distance invariant lapjv_fixed_cert would follow. *)
+   column.  (Kept under its round-4 name; the premise chain_ok is now discharged by C01_aug_pred_chain and the full
+   statement incl. partial inverses is C01_aug_flip_chain below.) *)
 Theorem C01_aug_flip_chain_partial : forall (r n : nat) (pred chain : list nat) (j1 : nat) (x y : list nat) (fuel : nat),
   NoDup chain -> length x = n -> length y = n -> chain_ok r n pred x j1 chain -> (length chain <= fuel)%nat ->
   exists x' y', aug_flip fuel r pred j1 x y n = Some (x', y') /\ length x' = n /\ length y' = n /\
     (forall i, ~ In i chain -> getn x' i n = getn x i n) /\ getn x' (hd r chain) n = j1.
 Proof. exact aug_flip_chain. Qed.
 Print Assumptions C01_aug_flip_chain_partial.
+
+(* Phase 4, the pred links (Proofs.LapjvAugPred, loop invariant PM = Marks + "pred[j] = r or y[j'] with j' earlier in ready"
+   + "ready ++ scan columns are assigned"): whenever the Dijkstra loop of a free row returns, the links from the exit column
+   form a chain_ok chain of distinct rows, no longer than the fuel S n of the flip loop; chain rows are r or assigned rows. *)
+Theorem C01_aug_pred_chain : forall (r n : nat) (rows : list (list (nat * ext))) (x y : list nat) (v : list ext) (inf : ext),
+  (forall i j c, In (j, c) (row rows i) -> (j < n)%nat) -> (forall i, NoDup (map fst (row rows i))) ->
+  forall (ms : main_state) (s' : aug_state) (j1 : nat),
+  length x = n -> length y = n -> (r < n)%nat -> free n y r -> PIh n x y None ->
+  length (m_done ms) = n -> length (m_ontodo ms) = n -> length (m_pred ms) = n ->
+  let row_r := rowget rows r in
+  let '(d, ontodo, pred) := aug_init_row r v row_r (repeat inf n) (m_ontodo ms) (m_pred ms) in
+  aug_loop (S (S n)) r n inf rows y v (mkAug d pred (m_done ms) ontodo (map fst row_r) [] [] inf) = Some (s', j1) ->
+  (j1 < n)%nat /\ getn y j1 n = n /\ length (g_pred s') = n /\ length (g_done s') = n /\ length (g_ontodo s') = n /\
+  exists chain, chain_ok r n (g_pred s') x j1 chain /\ NoDup chain /\ (length chain <= S n)%nat /\
+    forall i, In i chain -> i = r \/ exists j', (j' < n)%nat /\ i = getn y j' n /\ i <> n.
+Proof. exact aug_pred_chain. Qed.
+Print Assumptions C01_aug_pred_chain.
+
+(* C01_aug_flip_chain (Full): hence the flip loop of aug_row never runs out of fuel, and afterwards x / y are again partial
+   inverses (PIh None: y[j] = i <> n -> i < n /\ x[i] = j), the free row r is assigned, the exit column is assigned, no
+   column lost its row, and every other free row is still free. *)
+Theorem C01_aug_flip_chain : forall (r n : nat) (rows : list (list (nat * ext))) (x y : list nat) (v : list ext) (inf : ext),
+  (forall i j c, In (j, c) (row rows i) -> (j < n)%nat) -> (forall i, NoDup (map fst (row rows i))) ->
+  forall (ms : main_state) (s' : aug_state) (j1 : nat),
+  length x = n -> length y = n -> (r < n)%nat -> free n y r -> PIh n x y None ->
+  length (m_done ms) = n -> length (m_ontodo ms) = n -> length (m_pred ms) = n ->
+  let row_r := rowget rows r in
+  let '(d, ontodo, pred) := aug_init_row r v row_r (repeat inf n) (m_ontodo ms) (m_pred ms) in
+  aug_loop (S (S n)) r n inf rows y v (mkAug d pred (m_done ms) ontodo (map fst row_r) [] [] inf) = Some (s', j1) ->
+  exists x' y', aug_flip (S n) r (g_pred s') j1 x y n = Some (x', y') /\ length x' = n /\ length y' = n /\
+    PIh n x' y' None /\ (exists j, (j < n)%nat /\ getn y' j n = r) /\
+    getn y' j1 n <> n /\ (forall j, getn y j n <> n -> getn y' j n <> n) /\
+    (forall i', i' <> r -> free n y i' -> free n y' i').
+Proof. exact aug_flip_full. Qed.
+Print Assumptions C01_aug_flip_chain.
+
+(* over all free rows (the `for iii` loop of augment): St = arrays of length n + x / y partial inverses is kept, the rows
+   still to process stay free, every processed row adds one assigned column.  (aug_row returning Some means its Dijkstra
+   loop returned; the flip never fails.) *)
+Theorem C01_aug_rows_struct : forall (n : nat) (rows : list (list (nat * ext))) (inf : ext),
+  (forall i j c, In (j, c) (row rows i) -> (j < n)%nat) -> (forall i, NoDup (map fst (row rows i))) ->
+  forall ii s sf, St n s -> Pending n (m_y s) ii ->
+  fold_left (aug_row n inf rows) ii (Some s) = Some sf ->
+  St n sf /\ (acnt n (m_y s) + length ii <= acnt n (m_y sf))%nat.
+Proof. exact aug_rows_struct. Qed.
+Print Assumptions C01_aug_rows_struct.
+
+(* aug_scan_nonempty in conditional form (unconditional form under has_PM NOT proved, see Proofs.LapjvAugRows) *)
+Theorem C01_aug_scan_nonempty_partial : forall r n inf rows y v fuel s res,
+  aug_loop (S fuel) r n inf rows y v s = Some res ->
+  forall s1, refill r n y inf s = (s1, None) -> g_scan s1 <> [].
+Proof. exact aug_scan_nonempty. Qed.
+Print Assumptions C01_aug_scan_nonempty_partial.
 
 (* tracker identity with the scaling link: integer costs z = q * s (s > 0) of rational costs q that vanish on the
    diagonal, are non-negative, and positive off the diagonal in the m object rows; and the match cost of
